@@ -1005,3 +1005,97 @@ pub fn product_stacks(ex: &Explorer, depth: usize) -> Outcome {
     }
     Outcome { stats, found: found.into_values().collect(), xval_outputs: vec![], witnesses: BTreeMap::new(), sample_scripts: samples, runs: vec![] }
 }
+
+/// Run-length shapes: stacks `[base] MARK^a N^b MARK^c [GLOBAL] N^d` with the run lengths b, d taken from
+/// {0..4, powers of two and their neighbours up to `max_run`}, a <= 3, c <= 2 — a counting abstraction that reaches
+/// depths of 70+ slots with ~10^4 shapes. From each shape the operand-consuming opcodes are run once. Catches guards
+/// and scans whose behaviour changes with the NUMBER of items above / MARKs below a MARK (thresholds, window sizes).
+pub fn runlength_shapes(ex: &Explorer, max_run: usize) -> Outcome {
+    let p = ex.base_cfg.proto;
+    let mut lens: Vec<usize> = vec![0, 1, 2, 3, 4];
+    let mut x = 8;
+    while x <= max_run {
+        lens.extend([x - 1, x, x + 1]);
+        x *= 2;
+    }
+    lens.sort_unstable();
+    lens.dedup();
+    let mut bases: Vec<Vec<Vec<u8>>> = vec![vec![], vec![vec![b'N']], vec![vec![b'c']]];
+    if p >= 1 {
+        bases.push(vec![vec![b']']]);
+        bases.push(vec![vec![b'}']]);
+    } else {
+        bases.push(vec![vec![b'('], vec![b'l']]);
+        bases.push(vec![vec![b'('], vec![b'd']]);
+    }
+    if p >= 4 {
+        bases.push(vec![vec![0x8f]]);
+    }
+    let start = if p >= 4 { vec![0u8] } else { vec![] };
+    let (_c, _r, tr0) = ex.run(&start, 0);
+    let Some((en0, _)) = tr0.loop_end.clone() else {
+        return Outcome { stats: Stats::default(), found: vec![], xval_outputs: vec![], witnesses: BTreeMap::new(), sample_scripts: vec![], runs: vec![] };
+    };
+    let root = Rep { script: start, k: 0, enabled: en0 };
+    let step = |r: &Rep, op: u8, n: usize| -> Option<Rep> {
+        if n == 0 {
+            return Some(r.clone());
+        }
+        let plan: Vec<(Vec<u8>, Vec<u8>)> = std::iter::repeat((vec![op], vec![])).take(n).collect();
+        extend_rep(ex, r, &plan).ok()
+    };
+    let nl = lens.len();
+    let jobs: Vec<(usize, usize, usize)> = (0..bases.len()).flat_map(|bi| (0..=3usize).flat_map(move |a| (0..nl).map(move |li| (bi, a, li)))).collect();
+    let lens_ref = &lens;
+    let results: Vec<(Stats, Vec<Found>, u64)> = jobs
+        .par_iter()
+        .map(|(bi, a, li)| {
+            let mut st = Stats::default();
+            let mut found: Vec<Found> = vec![];
+            let mut shapes = 0u64;
+            let plan: Vec<(Vec<u8>, Vec<u8>)> = bases[*bi].iter().map(|w| (w.clone(), vec![])).collect();
+            let Ok(r0) = extend_rep(ex, &root, &plan) else { return (st, found, shapes) };
+            let Some(r1) = step(&r0, b'(', *a) else { return (st, found, shapes) };
+            let Some(r2) = step(&r1, b'N', lens_ref[*li]) else { return (st, found, shapes) };
+            for c in 0..=2usize {
+                let Some(r3) = step(&r2, b'(', c) else { continue };
+                for g in 0..=1usize {
+                    let Some(r4) = step(&r3, b'c', g) else { continue };
+                    let mut prev = r4.clone();
+                    let mut prev_d = 0usize;
+                    for &d in lens_ref.iter() {
+                        let Some(r5) = step(&prev, b'N', d - prev_d) else { break };
+                        prev = r5.clone();
+                        prev_d = d;
+                        shapes += 1;
+                        let mut e = ex.expand(&r5, true);
+                        e.succs.clear();
+                        st.add(&e.stats);
+                        for f in e.found {
+                            if !found.iter().any(|x| x.finding.class == f.finding.class) {
+                                found.push(f);
+                            }
+                        }
+                    }
+                }
+            }
+            (st, found, shapes)
+        })
+        .collect();
+    let mut stats = Stats::default();
+    let mut found: BTreeMap<String, Found> = BTreeMap::new();
+    for (st, fs, shapes) in results {
+        stats.add(&st);
+        stats.states += shapes;
+        for f in fs {
+            let key = format!("{}|{}", f.finding.prop, f.finding.class);
+            match found.get(&key) {
+                Some(old) if (old.script.len(), &old.script) <= (f.script.len(), &f.script) => {}
+                _ => {
+                    found.insert(key, f);
+                }
+            }
+        }
+    }
+    Outcome { stats, found: found.into_values().collect(), xval_outputs: vec![], witnesses: BTreeMap::new(), sample_scripts: vec![], runs: vec![] }
+}
